@@ -797,6 +797,81 @@ func (d *ckDrv) rewindScenario() {
 	d.restore(s2, b)
 }
 
+// availScenario: a consumer of checkpoints (what the snapshot transfer and the restore path do first)
+// keeps asking IsLocalBackupOK while backups of a large store run.  The moment a checkpoint is
+// reported available its directory is copied byte by byte; that copy, opened as a store of its own,
+// must be the complete image of the backup's index - a checkpoint is never visible half-written.
+func (d *ckDrv) availScenario(rounds int) {
+	s := d.stores[1]
+	d.applyN(s, 2)
+	for r := 0; r < rounds; r++ {
+		d.applyN(s, 1)
+		if !d.bbegin(s) {
+			continue
+		}
+		name := s.biName
+		d.scratch++
+		tmp := filepath.Join(d.base, fmt.Sprintf("avail%d", d.scratch))
+		dataDir, _ := engine.GetDataDirFromBase(d.eng, tmp)
+		src := filepath.Join(s.kv.GetBackupDir(), rockredis.GetCheckpointDir(name.t, name.i))
+		stopc := make(chan struct{})
+		type res struct {
+			copied bool
+			err    error
+			at     time.Time
+		}
+		resc := make(chan res, 1)
+		go func() {
+			for {
+				select {
+				case <-stopc:
+					resc <- res{}
+					return
+				default:
+				}
+				if ok, _ := s.kv.IsLocalBackupOK(name.t, name.i); ok {
+					at := time.Now()
+					resc <- res{true, copyTree(src, dataDir), at}
+					return
+				}
+				time.Sleep(20 * time.Microsecond)
+			}
+		}()
+		d.bnotify(s)
+		bi := s.bi
+		bi.GetResult()
+		doneAt := time.Now()
+		d.bdone(s)
+		var got res
+		select {
+		case got = <-resc:
+		case <-time.After(500 * time.Millisecond):
+			close(stopc)
+			got = <-resc
+		}
+		if got.copied {
+			dump, raw := "", ""
+			err := got.err
+			if err == nil {
+				var kv *node.KVStore
+				if kv, err = ckOpen(d.eng, tmp, 0); err == nil {
+					dump, raw = digest(ckLogical(kv)), ckRaw(kv)
+					kv.Close()
+				}
+			}
+			d.tw.Emit(trace.M{"ev": "ckdump", "s": s.id, "t": name.t, "i": name.i, "err": ckErrStr(err), "dump": dump, "raw": raw})
+			d.count("ckdumps")
+			d.count("copies_taken_when_reported_available")
+			if got.at.Before(doneAt) {
+				d.count("reported_available_before_done")
+			}
+		}
+		os.RemoveAll(tmp)
+	}
+	d.ckdumpAll(s)
+	d.count("avail_scenarios")
+}
+
 // bigSstScenario: large sst files with fixed-length values, and a store that goes back to an
 // older checkpoint and writes the same file numbers again: checkpoint B and the data directory
 // then hold files of the same name, the same size and the same last 256 kB but other content.
@@ -990,6 +1065,7 @@ func ckptsim(args []string) error {
 	keep := fs.Int("keep", 2, "KeepBackup of the stores (checkpoints kept by the purge)")
 	inflight := fs.Bool("inflight", true, "keep applying entries as soon as WaitReady has returned, while the checkpoint is still being written (false: only after the backup is done)")
 	useRsync := fs.Bool("rsync", false, "fetch checkpoints through an rsync daemon started by the driver (the path between hosts) instead of the local copy")
+	navail := fs.Int("availrace", 0, "number of histories in which a consumer polls IsLocalBackupOK during backups of a large store and copies a checkpoint the moment it is reported available (-len backups each)")
 	nbig := fs.Int("bigsst", 0, "number of scripted large-sst histories (bulk writes of fixed-length values, restore - rewrite - restore)")
 	fs.BoolVar(&ckNoWAL, "nowal", false, "open the engines with disable_wal (informational experiment)")
 	viasm := fs.Bool("viasm", false, "stores are kv state machines (node.NewKVStoreSM) and snapshots are taken through StateMachine.GetSnapshot, the entry point of the node's apply loop")
@@ -1087,6 +1163,14 @@ func ckptsim(args []string) error {
 			if runErr != nil {
 				return runErr
 			}
+		}
+	}
+	for k := 0; k < *navail; k++ {
+		d.big = true
+		segment(func() { d.availScenario(*rlen) })
+		d.big = false
+		if runErr != nil {
+			return runErr
 		}
 	}
 	for k := 0; k < *nbig; k++ {
